@@ -6,7 +6,11 @@ from numeric import Unit, run_numeric, replay_file
 
 # functions the property covers that are NOT discharged deductively (left out of the CONTRACT_ macros on purpose,
 # the contract is not weakened): (C name, reason).  The lead wires a bounded stand-in (DESIGN 3.4) for these.
-BOUNDED = []
+BOUNDED = [
+    ('rans_sa__dvt_1', 'd/d eta[nu*fv1(chi)] vs the code form n^3(n^3+4a^3)nu\'/(n^3+a^3)^2, a=cv1/re_tau: needs the inverse-scaling '
+                       'identity inv(re^3 q) = inv(re)^3 inv(q) under a differentiation; cvc5/z3/z3-new time out at 300 s (also with nu atomic). '
+                       'Its contract is in contracts/sa_bounded.h and is used (replace) by eval_q_u.'),
+]
 
 
 def _calls(cls, src):
@@ -17,7 +21,14 @@ def _calls(cls, src):
 
 def units():
     us = []
-    us.append(Unit('rans_sa', 'rans_sa.cpp', 'sa.spec.h', defines=['UNIT_rans_sa 1'], replace=_calls('rans_sa', 'rans_sa.cpp')))
+    rep = _calls('rans_sa', 'rans_sa.cpp')
+    # s() calls du() five times: five replaced calls defeat the solvers, the one-line body of du inlines fine
+    rep['rans_sa__s_1'] = [c for c in rep['rans_sa__s_1'] if c != 'rans_sa__du_1']
+    us.append(Unit('rans_sa', 'rans_sa.cpp', 'sa.spec.h', defines=['UNIT_rans_sa 1'], replace=rep))
+    us.append(Unit('fans_sa_transient_free_shear', 'fans_sa.cpp', 'sa.spec.h', defines=['UNIT_fans_sa_transient_free_shear 1']))
+    wb = 'fans_sa_steady_wall_bounded'
+    wrep = _calls(wb, 'fans_sa.cpp')      # every evaluator calls update(x,y) first: replaced by update's contract
+    us.append(Unit(wb, 'fans_sa.cpp', 'sa.spec.h', defines=['UNIT_fans_sa_steady_wall_bounded 1'], replace=wrep))
     return us
 
 
